@@ -342,6 +342,9 @@ class AsyncFIXConnection:
                         self._msg_buffer = self._msg_buffer[parsed_length:]
 
                     if decoded_msg is None:
+                        if parsed_length > 0:
+                            # something was rejected or skipped: look at what follows it
+                            continue
                         break
 
                     await self._process_message(decoded_msg, raw_msg)
